@@ -8,8 +8,15 @@ package schedule
 //@   property C18
 //@   ensures ok == (r.start <= offset && offset < r.end)
 
+// lastSched / lastPaused: the schedule most recently consulted and its answer (lets the callers' call-site clauses say
+// "the list is applied exactly when *its own* schedule is not pausing").
+//@ ghost var lastSched *Weekly
+//@ ghost var lastPaused bool
 //@ func (w *Weekly) Contains(t time.Time) (ok bool)
 //@   property C18
+//@   ghost at return: lastSched = w
+//@   ghost at return: lastPaused = ok
+//@   modifies lastSched, lastPaused
 //@   ensures wallclock: ok == (w.days[wdOf(t, w.location)].start <= clockOf(t, w.location) && clockOf(t, w.location) < w.days[wdOf(t, w.location)].end)
 
 //@ define validRange(r dayRange) bool = r == dayRange{} || (0 <= r.start && r.start < r.end && r.end <= 86400000000000)
